@@ -71,6 +71,9 @@ PENDING_TRIAGE = [
     "log_i16", "sqrt_i16", "log_u8",
                              # repro_11: LOG / SQRT (LUT operators of this fork) on int16 -> ValueError "math domain error" in
                              #           lut.create_lut_int16_op (table built over the negative half too); LOG on uint8 -> AssertionError
+    # --- C04 violation on the emitted stream
+    "softmax_r4",            # repro_13: REDUCE_SUM of the softmax lowering right after the producer of its IFM (depth 21 > producer block
+                             #           depth 16, ethos-u55-32): calc_blockdep sizes the first job with the OFM depth (1) -> BLOCKDEP 1 (C04 BlockDepSafe)
     # --- C03 (and C10) violations on the emitted stream
     "tconv_s1_valid",        # repro_7: TRANSPOSE_CONV stride 1 VALID is emitted as an unpadded convolution whose IFM box (OFM + k - 1)
                              #          exceeds the IFM: rows/columns past the tensor are fetched through tile 1/2 (C03 ReadsIntended, C10 Exact)
@@ -590,8 +593,10 @@ N_LEGACY_FAMILIES = len(FAMILIES) - len(corpus_ops.FAMILIES)
 
 # VERIF_CORPUS_LEGACY=1 restores the corpus as it was before the operator-coverage kinds / families were added
 # (used to measure the cost of the wider corpus and to reproduce older results)
-# While the wider corpus is being triaged it is opt-in (VERIF_CORPUS_OPS=1); other agents' runs see the legacy corpus.
-OPS_DEFAULT_ON = False
+# The triaged operator-coverage kinds / families are part of the default corpus; everything in PENDING_TRIAGE stays opt-in
+# (f_single(rng, seed, kind) / an explicit style).  OPS_DEFAULT_ON = False makes the whole wider corpus opt-in again
+# (VERIF_CORPUS_OPS=1).
+OPS_DEFAULT_ON = True
 LEGACY_ONLY = (os.environ.get("VERIF_CORPUS_LEGACY") == "1" or
                (not OPS_DEFAULT_ON and os.environ.get("VERIF_CORPUS_OPS") != "1"))
 
@@ -605,26 +610,29 @@ def ops_families():
     return [] if LEGACY_ONLY else [f for f in corpus_ops.FAMILIES if f not in PENDING_TRIAGE]
 
 
-def ops_kinds_for(seed, tier="quick"):
-    """operator-coverage kinds compiled by all_singles for this seed / tier, as (index in SINGLE_KINDS, kind)"""
+def ops_kinds_for(seed, tier="quick", rotation=None):
+    """operator-coverage kinds compiled by all_singles for this seed / tier, as (index in SINGLE_KINDS, kind).
+    rotation: explicit sampling period for callers whose cost per network is high (overrides the tier rule)."""
     if LEGACY_ONLY:
         return []
     live = [(N_LEGACY_KINDS + i, k) for i, k in enumerate(OPS_KINDS) if k not in PENDING_TRIAGE]
-    if tier == "thorough":
-        return live
-    return [(i, k) for pos, (i, k) in enumerate(live) if pos % OPS_ROTATION == seed % OPS_ROTATION]
+    if rotation is None:
+        if tier == "thorough":
+            return live
+        rotation = OPS_ROTATION
+    return [(i, k) for pos, (i, k) in enumerate(live) if pos % rotation == seed % rotation]
 
 
-def all_singles(seed, accel=None, tier="quick"):
-    """every legacy single-operator kind once, plus the operator-coverage kinds selected by ops_kinds_for(seed, tier)
-    (used by quick tiers that must touch every rewrite path).  The network and configuration of a kind depend only on
-    (seed, kind), not on which other kinds are selected."""
+def all_singles(seed, accel=None, tier="quick", rotation=None):
+    """every legacy single-operator kind once, plus the operator-coverage kinds selected by ops_kinds_for(seed, tier,
+    rotation) (used by quick tiers that must touch every rewrite path).  The network and configuration of a kind depend
+    only on (seed, kind), not on which other kinds are selected."""
     rng = random.Random(seed ^ 0x5a5a)
     out = []
     for i, k in enumerate(SINGLE_KINDS[:N_LEGACY_KINDS]):
         label, net = f_single(rng, rng.randrange(1 << 20), k)
         out.append({"id": "s%d" % i, "family": label, "net": net, "opts": config_point(rng, accel)})
-    for i, k in ops_kinds_for(seed, tier):
+    for i, k in ops_kinds_for(seed, tier, rotation):
         rk = random.Random((seed * 1000003) ^ (i * 7919) ^ 0x0b5)
         label, net = f_single(rk, rk.randrange(1 << 20), k)
         out.append({"id": "s%d" % i, "family": label, "net": net, "opts": config_point(rk, accel)})
